@@ -12,5 +12,7 @@ func Drivers() map[string]Driver {
 	return map[string]Driver{
 		"xlist": DriveXList,
 		"deque": DriveDeque,
+		"heap":  DriveHeap,
+		"pq":    DrivePQ,
 	}
 }
